@@ -121,9 +121,3 @@ def shrink(ctx, f):
 def search(ctx):
     return run(ctx)
 
-
-def replay(ctx, path):
-    import json
-    rp = json.load(open(path))["failure"]
-    print(json.dumps(impl.run({"op": "reader.run", "lines": rp["lines"], "mode": rp["mode"]}), indent=1)[:3000])
-    return 0
